@@ -199,17 +199,80 @@ class _Log:
     critical = _mk('critical')
 
 
+class TInstr(fakes.Instr):
+    """effect log with the virtual time of every entry (parallel list `times`)"""
+
+    def __init__(self, sched):
+        super().__init__(sched)
+        self.times = []
+
+    def ev(self, *item):
+        super().ev(*item)
+        self.times.append(self.s.now)
+
+
+class EntryNames:
+    """names the client's entries `[request, Event, reply]` by object identity (R0, R1, ... in the order in which the effect
+    log meets them) and remembers which event each one carries: nothing is assumed about how entries and events relate"""
+
+    def __init__(self):
+        self.by_id = {}
+        self.keep = []
+        self.event = {}
+
+    def __call__(self, item):
+        if not (isinstance(item, list) and len(item) == 3):
+            return repr(item)
+        n = self.by_id.get(id(item))
+        if n is None:
+            n = 'R%d' % len(self.keep)
+            self.by_id[id(item)] = n
+            self.keep.append(item)          # (keeps the object alive: its id is not reused)
+            self.event[n] = getattr(item[1], 'name', None)
+        return n
+
+
+def flat_requests(case):
+    """the requests of a case in a fixed order: [(thread index, request dict)], a caller's follow-up requests (`then`) after its
+    first one; in a `handshake` case the connect() of the main thread comes last (as the caller of the set-up requests)"""
+    out = []
+    for i, c in enumerate(case['callers']):
+        out.append((i, c))
+        for c2 in c.get('then', ()):
+            out.append((i, c2))
+    if case.get('handshake'):
+        out.append((None, {'action': 'connect()', 'spec': None}))
+    return out
+
+
 def run_case(case, policy, max_steps=6000):
-    """one run of the real client under one schedule; returns (scheduler, observation dict)"""
+    """one run of the real client under one schedule; returns (scheduler, observation dict)
+
+    case['callers'][i]: a request {action, spec, data, delay}; optional `then`: [request, ...] issued by the same thread one
+    after the other (each after the previous one returned or raised); optional `pipeline`: true - the thread queues all its
+    requests with queue_request() first and collects the replies with get_reply() afterwards.
+    case['handshake']: the scenario (schedule exploration, scripted peer rules, judging) begins BEFORE connect(): the peer's
+    answers to `*IDN?` / `describe` / `activate` are rules of the script like any other (late, never, an error reply)."""
     import frappy.client as fc
     from frappy.errors import SECoPError
     pol = PhasePolicy(policy, case.get('quiet_until'))
     s = vsched.Scheduler(policy=pol, max_steps=max_steps)
-    instr = fakes.Instr(s)
+    instr = TInstr(s)
     peer = fakes.Peer(instr, case['peer'])
     outcomes = {}
     extra = {}
-    ncall = len(case['callers'])
+    flat = flat_requests(case)
+    first_k = {}
+    for k, (i, _) in enumerate(flat):
+        first_k.setdefault(i, k)
+    names = EntryNames()
+    handshake = bool(case.get('handshake'))
+
+    def asynconn(uri, *a, **kw):
+        c = peer.connect(uri, *a, **kw)
+        if handshake and c.index == 0:
+            c.arm()          # the scenario has begun already: spontaneous lines and the drop time apply to this connection
+        return c
 
     def classify(e):
         if isinstance(e, SECoPError):
@@ -223,7 +286,8 @@ def run_case(case, policy, max_steps=6000):
     with s.patched(fc, queue=fakes.LQueueModule(instr, ['txq', 'pending']), Event=fakes.levent_factory(instr),
                    RLock=fakes.llock_factory(instr, ['_lock', 'reqlock']),
                    mkthread=lambda f, *a, **k: fakes.LHandle(instr, s.mkthread(f, *a, **k)), time=s.time,
-                   current_thread=lambda: fakes.LHandle(instr, s.threading.current_thread(), announce=False), AsynConn=peer.connect):
+                   current_thread=lambda: fakes.LHandle(instr, s.threading.current_thread(), announce=False), AsynConn=asynconn):
+        fakes.ENTRY_NAMER[0] = names
         cls = _traced_client_class(case.get('fine', False))
         client = cls('fake:1', _Log())
         client.activate = bool(case.get('activate', False))
@@ -233,22 +297,52 @@ def run_case(case, policy, max_steps=6000):
             client.__dict__['_instr'] = instr
             client._reconnecting = LogDict(instr, 'reconnecting')
 
-        def caller(i, c):
-            if c.get('delay'):
-                s.time.sleep(c['delay'])
-            instr.ev('call.begin', i, c['action'], c.get('spec'))
-            tput = s.now
+        def outcome_of(f):
             try:
-                r = client.request(c['action'], c.get('spec'), c.get('data'))
+                r = f()
                 out = {'kind': 'reply', 'action': r[0], 'spec': r[1], 'data': json.dumps(r[2])}
             except vsched.SchedAbort:
                 raise
             except BaseException as e:    # noqa
                 out = classify(e)
+            return out
+
+        def finish(k, out, tput):
             out['t'] = s.now
             out['tput'] = tput
-            outcomes[i] = out
-            instr.ev('call.end', i, out['kind'])
+            outcomes[k] = out
+            instr.ev('call.end', k, out['kind'])
+
+        def caller(i, c0):
+            reqs = [c0] + list(c0.get('then', ()))
+            k0 = first_k[i]
+            if c0.get('pipeline'):
+                queued = []
+                for j, c in enumerate(reqs):
+                    if c.get('delay'):
+                        s.time.sleep(c['delay'])
+                    instr.ev('call.begin', k0 + j, c['action'], c.get('spec'))
+                    tput = s.now
+                    box = {}
+
+                    def q(c=c, box=box):
+                        box['entry'] = client.queue_request(c['action'], c.get('spec'), c.get('data'))
+                        return [None, None, None]
+                    out = outcome_of(q)
+                    if 'entry' in box:
+                        queued.append((k0 + j, box['entry'], tput))
+                    else:
+                        finish(k0 + j, out, tput)
+                for k, entry, tput in queued:
+                    t_get = s.now        # (the reply time-out runs from the call of get_reply)
+                    finish(k, outcome_of(lambda entry=entry: client.get_reply(entry)), t_get)
+                return
+            for j, c in enumerate(reqs):
+                if c.get('delay'):
+                    s.time.sleep(c['delay'])
+                instr.ev('call.begin', k0 + j, c['action'], c.get('spec'))
+                tput = s.now
+                finish(k0 + j, outcome_of(lambda c=c: client.request(c['action'], c.get('spec'), c.get('data'))), tput)
 
         def closer(c):
             if c.get('delay'):
@@ -264,6 +358,13 @@ def run_case(case, policy, max_steps=6000):
             instr.ev('close.end', extra['closer'])
 
         def main():
+            if handshake:
+                instr.ev('start')
+                peer.start()
+                pol.start(s)
+                extra['t0'] = s.now
+                instr.ev('call.begin', len(flat) - 1, 'connect()', None)
+            tput = s.now
             try:
                 client.connect()
                 extra['connect'] = 'ok'
@@ -271,11 +372,17 @@ def run_case(case, policy, max_steps=6000):
                 raise
             except BaseException as e:    # noqa
                 extra['connect'] = type(e).__name__
-                return
-            instr.ev('start')
-            peer.start()
-            pol.start(s)
-            extra['t0'] = s.now
+                if not handshake:
+                    return
+                finish(len(flat) - 1, classify(e), tput)
+            if handshake:
+                if extra['connect'] == 'ok':
+                    finish(len(flat) - 1, {'kind': 'connected'}, tput)
+            else:
+                instr.ev('start')
+                peer.start()
+                pol.start(s)
+            extra.setdefault('t0', s.now)
             ts = [s.spawn(f'c{i}', caller, (i, c)) for i, c in enumerate(case['callers'])]
             if case.get('closer') is not None:
                 ts.append(s.spawn('closer', closer, (case['closer'],)))
@@ -299,7 +406,10 @@ def run_case(case, policy, max_steps=6000):
             instr.ev('final.end', extra['final'])
 
         s.spawn('main', main)
-        res = s.run(wall_timeout=20.0)
+        try:
+            res = s.run(wall_timeout=20.0)
+        finally:
+            fakes.ENTRY_NAMER[0] = None
         client.callbacks.clear()
         try:
             impl_final = {
@@ -315,7 +425,11 @@ def run_case(case, policy, max_steps=6000):
         alive = sorted({name.rstrip('0123456789') for name, _ in s.trace[-300:]}
                        | ({'main'} if 'final' not in extra and extra.get('connect') == 'ok' else set()))
     obs = {
-        'callers': [outcomes.get(i, {'kind': 'none'}) for i in range(ncall)],
+        'callers': [outcomes.get(k, {'kind': 'none'}) for k in range(len(flat))],
+        'handshake': handshake,
+        'entry_event': dict(names.event),
+        'conn_closed_at': [c.closed_at for c in peer.conns],
+        'times': instr.times,
         # (a thread unwound by the scheduler after an abort may trip over a lock in its `finally`: not an observation)
         'errors': {t.name: type(t.error).__name__ for t in s.threads
                    if t.error is not None and 'outside the scheduler' not in str(t.error)},
@@ -407,6 +521,32 @@ def to_labels(obs):
     has_lock = any(e[1] == 'lk.acq' and e[2] == 'reqlock' for e in ev)
     notes = []
     cut = None          # number of labels when a later connection was established: the matching model is of ONE connection
+    ent_ev = obs.get('entry_event', {})      # entry name -> name of the event it carries
+    times = obs.get('times') or [0.0] * len(ev)
+    first_conn = bool(obs.get('handshake'))  # the scenario began before connect(): the first connection is still to come
+    open_call = {}      # thread -> index of the request it has begun and not yet queued
+    impl_deliv = {}     # entry name -> model seq of the line the rx thread matched it with (as the implementation did it)
+    cur = {'seq': None}
+    put_time = {}       # entry name -> virtual time of its put
+    workers_made = [not obs.get('handshake')]
+
+    # a handshake case: an `update` of a parameter is consumed before the matching code only once the description has been
+    # installed (connect() back from its wait for the reply to `describe`, with a `describing` line); the driver is told
+    # `known = []` for these cases and the flag is set here, line by line
+    descr = {'entry': None, 'at': None}
+
+    def consumed(text, at):
+        if not obs.get('handshake') or descr['at'] is None or at < descr['at']:
+            return False
+        a, sp, _ = split_line(text)
+        return a in ('update', 'error_update') and sp in KNOWN_IDENTS
+
+    def carries(entry, evname):
+        return ent_ev.get(entry, entry) == evname
+
+    def rx_matched():
+        if rx['found'] is not None and cur['seq'] is not None:
+            impl_deliv[rx['found']] = cur['seq']
 
     def rx_flush_lazy():
         # a line that never reached the matching code (event line / undecodable): dropped
@@ -419,14 +559,20 @@ def to_labels(obs):
             labels.append(['rxCleanup', ('id', None), ('took', rx['took'])])
             rx.update(clean=False, took=[])
 
-    for e in ev[start + 1:]:
+    for ei in range(start + 1, len(ev)):
+        e = ev[ei]
         th, kind = e[0], e[1]
         is_rx, is_tx = th.startswith('rxthread'), th.startswith('txthread')
+        if kind == 'c.new' and e[2] and first_conn:
+            first_conn = False
+            continue
         if kind == 'c.new' and e[2] and cut is None:
             rx_flush_lazy()
             rx_cleanup_lazy()
             cut = len(labels)
         if cut is not None and kind not in ('call.begin', 'call.end', 'close.end', 'final.end'):
+            continue
+        if kind == 'c.emit':      # (the peer's doing, logged under whichever thread made the scheduler look at the connection)
             continue
         if is_rx and kind not in ('d.pop', 'lk.acq', 'd.next', 'd.next.error', 'd.len') and not (kind == 'q.get' and e[2] == 'pending'):
             rx_flush_lazy()
@@ -446,6 +592,14 @@ def to_labels(obs):
             ids[name] = len(ids)
             req = e[4] or [None, None]
             puts[th] = (ids[name], len(labels), name)
+            put_time[name] = times[ei]
+            if obs.get('handshake') and req[0] == 'describe' and descr['entry'] is None:
+                descr['entry'] = name
+            if th in open_call:
+                k, multi = open_call[th]
+                callers[k].update(id=ids[name], putAt=len(labels), entry=name)
+                if not multi:
+                    del open_call[th]
             labels.append(['put', req[0], req[1]])
         elif kind == 'q.get' and e[2] == 'txq':
             name, block = e[3], e[4]
@@ -479,8 +633,9 @@ def to_labels(obs):
             re_id = None
             if re_idx is not None and re_idx < len(obs.get('sent_entries', [])):
                 re_id = obs['sent_entries'][re_idx]
-            labels.append(['peerEmit', action, spec, line_is_bad(text), ('re', re_idx)])
+            labels.append(['peerEmit', action, spec, line_is_bad(text) or consumed(text, ei), ('re', re_idx)])
             labels.append(['rxRead'])
+            cur['seq'] = mseq
             rx.update(line=True, mode=None, found=None, fails=0, took=[])
         elif kind == 'c.read.closed' and is_rx:
             labels.append(['closeBegin'])
@@ -505,6 +660,7 @@ def to_labels(obs):
                 if not has_lock and (rx['found'] is not None or rx['fails'] >= 2):
                     rx['pending_label'] = ['rxMatch', ('id', rx['found']), ('took', rx['took'])]
                     labels.append(rx['pending_label'])
+                    rx_matched()
                     rx['set_for'] = rx['found']
                     rx.update(line=False, mode=None)
         elif kind == 'q.get' and e[2] == 'pending':
@@ -521,6 +677,7 @@ def to_labels(obs):
                 rx.update(clean=False, mode=None, took=[])
             elif rx['mode'] == 'match':
                 labels.append(['rxMatch', ('id', rx['found']), ('took', rx['took'])])
+                rx_matched()
                 rx['set_for'] = rx['found']
                 rx.update(line=False, mode=None, took=[])
         elif kind == 'd.popitem':
@@ -528,19 +685,24 @@ def to_labels(obs):
                 labels.append(['closeActive'])
                 rel_hold.setdefault(th, []).append(e[4])
         elif kind == 'ev.set':
-            name = e[2]
-            if name not in ids:
-                continue             # the client's _shutdown event
-            if name in rel_hold.get(th, []):
-                rel_hold[th].remove(name)
-                labels.append(['closeSet', ids[name]])
-            elif is_rx and rx['set_for'] == name:
+            name = e[2]              # (the name of the EVENT; which entry it stands for is decided by who sets it)
+            held = [n for n in rel_hold.get(th, []) if carries(n, name)]
+            if not any(carries(n, name) for n in ids):
+                continue             # the client's _shutdown event, a start gate, a cancel event
+            if held:
+                rel_hold[th].remove(held[0])
+                labels.append(['closeSet', ids[held[0]]])
+            elif is_rx and rx['set_for'] is not None and carries(rx['set_for'], name):
                 rx['set_for'] = None
                 labels.append(['rxSetEvent'])
-            elif th in puts and puts[th][2] == name:
-                labels.append(['selfRelease', ids[name]])
+            elif th in puts and carries(puts[th][2], name):
+                labels.append(['selfRelease', ids[puts[th][2]]])
             else:
                 notes.append(f'unexplained event.set of {name} by {th}')
+        elif kind == 'ev.wait' and descr['entry'] is not None and descr['at'] is None and e[3] and carries(descr['entry'], e[2]):
+            q = impl_deliv.get(descr['entry'])
+            if q is not None and split_line(seqs[q])[0] == 'describing':
+                descr['at'] = ei
         elif kind == 'l.append' and e[2] == 'cleanup':
             if e[3] in ids:
                 labels.append(['timeout', ids[e[3]]])
@@ -554,11 +716,18 @@ def to_labels(obs):
             closed_at.append(len(labels))
         elif kind == 'call.begin':
             callers[e[2]] = {'begin': len(labels), 'thread': th}
+            open_call[th] = (e[2], e[3] == 'connect()')     # connect() queues several requests: its record is the last one's
         elif kind == 'call.end':
             c = callers[e[2]]
+            if open_call.get(th, (None, False))[1] and e[3] != 'connected' and not workers_made[0]:
+                # connect() gave up before it had started the workers: `_running` was never set, the client does not run
+                # (the model's word for "not running" is `closing`)
+                labels.append(['closeBegin'])
             c['endAt'] = len(labels)
-            if th in puts and puts[th][1] >= c['begin']:
-                c['id'], c['putAt'] = puts[th][0], puts[th][1]
+            if open_call.get(th, (None,))[0] == e[2]:
+                del open_call[th]
+        elif kind == 'th.new' and e[2].rstrip('0123456789') in ('rxthread', 'txthread'):
+            workers_made[0] = True
     rx_flush_lazy()
     rx_cleanup_lazy()
     # the rx / tx threads' own disconnect(False) ends with their last effect
@@ -573,8 +742,9 @@ def to_labels(obs):
     for e in ev[start + 1:]:
         if e[1] == 'q.get' and e[2] == 'txq' and e[0].startswith('txthread') and e[3] is not None and e[4]:
             hold = e[3]
-        elif e[1] in ('c.send', 'c.send.lost') and e[0].startswith('txthread') and e[1] == 'c.send':
-            sent.append(ids.get(hold))
+        elif e[1] == 'c.send':
+            # (index = position among ALL lines transmitted since the start: `*IDN?` of a handshake is sent by connect() itself)
+            sent.append(ids.get(hold) if e[0].startswith('txthread') else None)
     for lb in labels:
         if lb[0] == 'peerEmit':
             idx = lb[4][1]
@@ -606,24 +776,58 @@ def to_labels(obs):
             uid = None
             for q, text in seqs.items():
                 a, sp, data = split_line(text)
-                if a.startswith('error_') and ('"u%s"' % _uid_of_error(out) in data):
-                    uid = q
+                if a.startswith('error_'):
+                    try:
+                        msg = json.loads(data)[1]
+                    except (ValueError, IndexError, KeyError, TypeError):
+                        continue
+                    if msg == out.get('text'):      # (every line of a script is unique)
+                        uid = q
             if uid is None:
                 rec['out'] = 'conn'          # error raised by connect(): the connection could not be re-established
             else:
                 rec['seq'] = uid
         elif out['kind'] == 'none':
             rec['out'] = 'other'
+        elif out['kind'] == 'connected':
+            # connect() returned: its last set-up request was answered; which line the rx thread gave it, as the implementation did it
+            rec['out'] = 'reply'
+            rec['seq'] = impl_deliv.get(c.get('entry'), 10 ** 6)
+        if 'entry' in c and obs.get('handshake') and i == len(obs['callers']) - 1:
+            rec['tPut'] = int(max(0.0, put_time[c['entry']] - t0) * 1000)
         if cut is not None and 'id' not in c:
             rec['out'] = 'later'             # served (or not) by a later connection: outside the matching model
         cobs.append(rec)
-    return {'labels': labels, 'callers': cobs, 'closedAt': closed_at, 'ids': ids, 'seqs': seqs, 'notes': notes}
+    # what the peer made readable on the first connection while it lasted, and from when on (whether or not it was ever read)
+    arrivals = []
+    limit = (obs.get('conn_closed_at') or [None])[0]
+    for e in ev[start + 1:]:
+        if e[1] == 'c.emit' and e[2] == 0 and not e[7] and (limit is None or e[5] <= limit):
+            a, sp, _ = split_line(e[4])
+            at = len(ev) if descr['at'] is not None and e[5] >= times[descr['at']] else -1
+            arrivals.append([a, sp, line_is_bad(e[4]) or consumed(e[4], at), sent[e[6]] if e[6] is not None and e[6] < len(sent) else None,
+                             int(max(0.0, e[5] - t0) * 1000)])
+    return {'labels': labels, 'callers': cobs, 'closedAt': closed_at, 'ids': ids, 'seqs': seqs, 'notes': notes,
+            'arrivals': arrivals}
+
+
+def _event_named(obs):
+    """the effect log with the entries of queue operations named by their events again (what the two converters below key on)"""
+    m = obs.get('entry_event') or {}
+    out = []
+    for e in obs['events']:
+        if e[1] == 'c.emit':
+            continue
+        if e[1] in ('q.put', 'q.get', 'q.put.fail') and len(e) > 3 and e[3] in m:
+            e = e[:3] + [m[e[3]]] + e[4:]
+        out.append(e)
+    return out
 
 
 def to_shutdown_acts(obs):
     """fine-grained run -> acts of the shutdown-protocol model (Client/Shutdown.lean), each with the program point the
     acting worker must reach; the conversion stops at the first reconnection attempt (connect() is not in the model)"""
-    ev = obs['events']
+    ev = _event_named(obs)
     try:
         start = next(i for i, e in enumerate(ev) if e[1] == 'start')
     except StopIteration:
@@ -764,7 +968,7 @@ def to_life_acts(obs):
     is a shared access of connect() / disconnect() / the workers / the reconnect threads, with the kind of access (`ev`), the
     queue object touched (`q`) and the thread waited for (`w`); which step that is, is decided by the model.
     The model starts after the first connect(): tx thread = 0, rx thread = 1, connection 0, queue 0."""
-    ev = obs['events']
+    ev = _event_named(obs)
     try:
         start = next(i for i, e in enumerate(ev) if e[1] == 'start')
     except StopIteration:
@@ -816,6 +1020,7 @@ def to_life_acts(obs):
         if kind == 'call.begin':
             acts.append({'a': ['newReq'], 'ev': '-'})
             new_thread(th)
+            gone.discard(th)      # (a follow-up request of a thread whose previous request is over: a new user request)
             continue
         if kind in ('close.begin', 'final.begin'):
             acts.append({'a': ['newDisc'], 'ev': '-'})
@@ -933,11 +1138,16 @@ def to_life_acts(obs):
             lock.add(th)
             act(th, 'lock')
         elif kind == 'lk.rel' and e[2] == '_lock':
-            if th in in_cx:
+            raised = th in in_cx
+            if raised:
                 in_cx.discard(th)
                 act(th, 'cx', 1)
             lock.discard(th)
             act(th, 'unlock')
+            if raised and th[0] == 'c' and th != 'closer':
+                # the connect() of a user's request raised: the request is over for the life-cycle model (the thread may still
+                # collect the replies to requests it had queued before: get_reply, the matching model's)
+                gone.add(th)
         elif kind == 'c.new':
             act(th, 'cnew', 0 if e[2] else 1)
             if not e[2]:
@@ -958,7 +1168,8 @@ def to_life_acts(obs):
                     act(th, 'read', 3)
                 else:
                     n = nextev(i, th)
-                    hb = n is not None and n[1] == 'lk.acq' and n[2] == '_lock'
+                    # a heartbeat is due: the rx thread makes an entry (its Event) and queues it
+                    hb = n is not None and n[1] == 'ev.new'
                     act(th, 'read', 2 if hb else 0)
         elif kind == 'c.shutdown':
             act(th, 'shut')
@@ -1043,11 +1254,29 @@ def reply_line(c, uid, error=False):
     return '%s %s [%d, {"t": 1}]' % (REPLY_OF[c['action']], spec, uid)
 
 
+def handshake_rules(ident=0, describe=0, activate=0):
+    """peer rules answering the set-up requests of connect(): a delay in seconds, None = the node stays silent,
+    'error' = an error reply"""
+    rules = []
+    if ident is not None:
+        rules.append({'on': '*IDN?', 'emit': [[ident, fakes.Peer.IDENT]]})
+    if describe == 'error':
+        rules.append({'on': 'describe', 'emit': [[0, 'error_describe . ["InternalError", "u90", {}]']]})
+    elif describe is not None:
+        rules.append({'on': 'describe', 'emit': [[describe, 'describing . ' + json.dumps(fakes.Peer.DEFAULT_DESCRIPTION)]]})
+    if activate == 'error':
+        rules.append({'on': 'activate', 'emit': [[0, 'error_activate . ["InternalError", "u91", {}]']]})
+    elif activate is not None:
+        rules.append({'on': 'activate', 'emit': [[activate, 'active']]})
+    return rules
+
+
 def catalogue():
     """the scenarios in which the design phase and this work package found defects (run on every check)"""
     rp = {'action': 'read', 'spec': 'm:p'}
     rq = {'action': 'read', 'spec': 'm:q'}
-    return [
+    rule_p = {'on': 'read m:p', 'emit': [[0, reply_line(rp, 101)]]}
+    return handshake_catalogue(rp, rq, rule_p) + same_thread_catalogue(rp, rq) + [
         {'name': 'F18 user disconnect racing the reply and a peer drop',
          'callers': [rp], 'closer': {'delay': 0},
          'peer': {'rules': [{'on': 'read m:p', 'emit': [[0, reply_line(rp, 101)]], 'drop': 0.0}]}},
@@ -1107,6 +1336,55 @@ def catalogue():
     ]
 
 
+def handshake_catalogue(rp, rq, rule_p):
+    """the scenario begins before connect(): the set-up requests are requests like any other, connect() is their caller"""
+    return [
+        {'name': 'handshake: the node answers *IDN? and stays silent on describe (the rx thread reaches its heartbeat meanwhile)',
+         'callers': [rp], 'handshake': True, 'peer': {'rules': handshake_rules(describe=None) + [rule_p]}},
+        {'name': 'handshake, activated client: the node stays silent on activate',
+         'callers': [rp], 'handshake': True, 'activate': True,
+         'peer': {'rules': handshake_rules(activate=None) + [rule_p]}},
+        {'name': 'handshake: describe answered after a while, a request and a user disconnect follow',
+         'callers': [rp], 'handshake': True, 'closer': {'delay': 0},
+         'peer': {'rules': handshake_rules(describe=0.5) + [rule_p]}},
+        {'name': 'handshake: describe answered after 6 s, within its time-out (the rx thread has sent a heartbeat meanwhile)',
+         'callers': [rp], 'handshake': True, 'peer': {'rules': handshake_rules(describe=6.0) + [rule_p]}},
+        {'name': 'handshake, activated client: activate answered after 6 s',
+         'callers': [rp], 'handshake': True, 'activate': True,
+         'peer': {'rules': handshake_rules(activate=6.0) + [rule_p]}},
+        {'name': 'handshake: error reply to describe',
+         'callers': [rp], 'handshake': True, 'peer': {'rules': handshake_rules(describe='error') + [rule_p]}},
+        {'name': 'handshake: no answer to *IDN?',
+         'callers': [rp], 'handshake': True, 'peer': {'rules': handshake_rules(ident=None) + [rule_p]}},
+        {'name': 'handshake: the node closes the connection instead of answering describe',
+         'callers': [rp], 'handshake': True,
+         'peer': {'rules': handshake_rules(describe=None) + [{'on': 'describe', 'emit': [], 'drop': 0.3}, rule_p]}},
+    ]
+
+
+def same_thread_catalogue(rp, rq):
+    """one thread owning several entries: its next request after a time-out while the late reply to the previous one is on
+    its way; the asynchronous pair queue_request() / get_reply() with several requests outstanding"""
+    return [
+        {'name': 'a thread\'s next request after a time-out; the late reply to the first arrives while it waits for the second',
+         'callers': [dict(rp, then=[rq])], 'quiet_until': 9.9,
+         'peer': {'rules': [{'on': 'read m:p', 'emit': [[10.5, reply_line(rp, 101)]]},
+                            {'on': 'read m:q', 'emit': [[0.8, reply_line(rq, 102)]]}]}},
+        {'name': 'the same with equal keys (the second request is parked behind the timed-out one)',
+         'callers': [dict(rp, then=[rp])], 'quiet_until': 9.9,
+         'peer': {'rules': [{'on': 'read m:p', 'nth': 0, 'emit': [[10.5, reply_line(rp, 101)]]},
+                            {'on': 'read m:p', 'nth': 1, 'emit': [[0.8, reply_line(rp, 102)]]}]}},
+        {'name': 'one thread, two requests outstanding (queue_request twice, then get_reply twice), replies in the other order',
+         'callers': [dict(rp, pipeline=True, then=[rq]), {'action': 'change', 'spec': 'm:p', 'data': 1}],
+         'peer': {'rules': [{'on': 'read m:p', 'emit': [[0.4, reply_line(rp, 101)]]},
+                            {'on': 'read m:q', 'emit': [[0, reply_line(rq, 102)]]},
+                            {'on': 'change m:p 1', 'emit': [[0.2, 'changed m:p [103, {}]']]}]}},
+        {'name': 'one thread, two requests outstanding, a user disconnect at once',
+         'callers': [dict(rp, pipeline=True, then=[rq])], 'closer': {'delay': 0},
+         'peer': {'rules': [{'on': 'read m:p', 'emit': [[0, reply_line(rp, 101)]]}]}},
+    ]
+
+
 def gen_case(rng, big):
     n = rng.choice([2, 2, 3, 3, 4])
     callers = []
@@ -1116,10 +1394,23 @@ def gen_case(rng, big):
         if r < 0.12:
             c['delay'] = rng.choice([0.3, 5.0, 10.5, 11.0])
         callers.append(c)
+    # one thread owning several entries: follow-up requests of the same thread (after a reply, an error, a time-out), or
+    # several requests outstanding at once (queue_request ... get_reply)
+    for c in list(callers):
+        if rng.random() < 0.22:
+            c['then'] = [dict(rng.choice(REQUEST_POOL)) for _ in range(rng.choice([1, 1, 2]))]
+            if rng.random() < 0.35:
+                c['pipeline'] = True
+    # the scenario begins before connect(): how the node answers the set-up requests
+    handshake = None
+    if rng.random() < 0.12:
+        handshake = handshake_rules(ident=rng.choice([0, 0, 0, 0.4, None]),
+                                    describe=rng.choice([0, 0, 0.3, 4.0, 6.0, 8.0, None, 'error']),
+                                    activate=rng.choice([0, 0, 0.3, 6.0, None, 'error']))
     uid = [100]
     rules = []
     counts = {}
-    for c in callers:
+    for c in [x for c0 in callers for x in [c0] + list(c0.get('then', ()))]:
         text = sent_text(c)
         nth = counts.get(text, 0)
         counts[text] = nth + 1
@@ -1168,6 +1459,9 @@ def gen_case(rng, big):
     if rng.random() < 0.3:
         peer['send_error'] = True
     case = {'callers': callers, 'peer': peer}
+    if handshake is not None:
+        case['handshake'] = True
+        peer['rules'] = handshake + peer['rules']
     if rng.random() < 0.35:
         case['closer'] = {'delay': rng.choice([0, 0, 0.1, 0.7, 10.2])}
     if rng.random() < 0.25:
@@ -1192,9 +1486,9 @@ def requests_for(case, obs, schedule):
     L = to_labels(obs)
     if L is None:
         return None
-    base = {'p': 'C11', 'known': KNOWN_IDENTS, 'labels': L['labels']}
+    base = {'p': 'C11', 'known': [] if case.get('handshake') else KNOWN_IDENTS, 'labels': L['labels']}
     raised = [x for x in (obs['extra'].get('closer'), obs['extra'].get('final')) if x not in (None, 'ok')]
-    judge = dict(base, k='judge', callers=L['callers'], closedAt=L['closedAt'], slackMs=20,
+    judge = dict(base, k='judge', callers=L['callers'], closedAt=L['closedAt'], slackMs=20, arrivals=L['arrivals'], marginMs=1500,
                  threadErrors=sorted(f'{k}:{v}' for k, v in obs['errors'].items()), disconnectRaised=raised,
                  alive=obs['alive'], deadlock=obs['deadlock'], unterminated=obs['aborted'] is not None)
     if 'settled' in obs['extra']:
@@ -1202,9 +1496,9 @@ def requests_for(case, obs, schedule):
         cb = next((i for i, e in enumerate(ev) if e[1] == 'close.begin'), len(ev))
         ends = {e[2]: i for i, e in enumerate(ev) if e[1] == 'call.end'}
         judge['afterShutdown'] = dict(obs['extra']['settled'],
-                                      userActivity=any(ends.get(i, len(ev)) > cb for i in range(len(case['callers']))))
+                                      userActivity=any(ends.get(i, len(ev)) > cb for i in range(len(flat_requests(case)))))
     reqs = [dict(base, k='replay', locked=True), judge]
-    if case.get('fine'):
+    if case.get('fine') and not case.get('handshake'):      # (the two replays below start after a completed connect())
         acts = to_shutdown_acts(obs)
         if acts is not None:
             reqs.append({'p': 'C11', 'k': 'shutdown_replay', 'acts': acts})
@@ -1288,12 +1582,13 @@ def assess(case, schedule, obs, L, replay_ans, judge_ans, res, ctx, shut_ans=Non
                     f'nowhere in the client any more (state {j["first_lost"]} of the run)'))
     if not j['no_double']:
         out.append(('C11:no_double_delivery', 'one received line was handed to two callers'))
+    flat = flat_requests(case)
     for i, v in enumerate(j['verdicts']):
-        c = case['callers'][i]
+        c = flat[i][1]
         if v == 'ok':
             continue
         if v == 'wrong-reply':
-            kind = 'known-action' if c['action'] in known else 'unknown-action'
+            kind = 'known-action' if c['action'] in known or c['action'] == 'connect()' else 'unknown-action'
             out.append((f'C11:reply_matches:{kind}',
                         f'caller {i} ({sent_text(c)}) returned {obs["callers"][i]} which does not answer its request'))
         elif v == 'raised':
@@ -1385,8 +1680,16 @@ CONN_CATALOGUE = [
     ['peerRst:linger', 'disconnect'],
     ['peerFin', 'shutdown', 'shutdown'],
     ['peerSend', 'peerSend', 'readline', 'peerRst:unread', 'readline', 'readline', 'shutdown', 'disconnect'],
+    # ---- a complete line still in the buffer when the connection object is closed locally
+    ['peerSend', 'peerSend', 'send', 'readline', 'disconnect', 'peerSend', 'shutdown', 'readline', 'readline'],
+    # ---- a line arriving in segments, with pauses longer than the inter-byte time-out (readline returns None in between)
+    ['peerPart', 'readline', 'peerSend', 'readline', 'readline'],
+    ['peerSend', 'peerPart', 'readline', 'readline', 'peerPart', 'readline', 'peerSend', 'peerSend', 'readline', 'readline', 'readline'],
+    ['peerPart', 'peerSend', 'readline', 'peerPart', 'readline', 'peerFin', 'readline', 'shutdown'],
+    ['peerPart', 'readline', 'peerRst:linger', 'readline', 'send', 'disconnect'],
+    ['peerPart', 'readline', 'shutdown', 'readline', 'disconnect'],
 ]
-CONN_STEPS = (['peerSend'] * 2 + ['peerFin', 'peerRst:linger', 'peerRst:unread'] + ['readline'] * 4 + ['send'] * 2
+CONN_STEPS = (['peerSend'] * 3 + ['peerPart'] * 2 + ['peerFin', 'peerRst:linger', 'peerRst:unread'] + ['readline'] * 5 + ['send'] * 2
               + ['shutdown'] * 2 + ['disconnect'])
 E2E_KINDS = ['fin', 'rst', 'unread', 'user']
 E2E_BOUND_MS = 3000
@@ -1487,6 +1790,8 @@ META = {
     'level_text': 'Five models of the repaired SecopClient, theorems for all reachable states (any number of callers, requests, '
                   'lines, any interleaving, disconnects at any point).  (1) matching LTS, one action per shared access of caller, '
                   'tx, rx and disconnecting threads: reply_matches_partial (known actions), no_double_delivery, no_parking, '
+                  'no_spurious_release (while no shutdown / loss has begun no event is set without a reply: no caller leaves '
+                  'get_reply with a connection error on a healthy connection), '
                   'no_lost_request (every queued request is still in the machinery or its caller is answered / released / timed out; '
                   'the keys of active_requests are pairwise different), disconnect_releases_all and '
                   'disconnect_leaves_nobody_waiting (a lone disconnect can run to its end, releases every queued/filed/parked '
@@ -1497,7 +1802,9 @@ META = {
                   'shutdown_terminates (deadlock-freedom after any shutdown request: user, peer, failing send, or several).  '
                   '(4) connection object (one TCP endpoint: peer lines / FIN / RST, client readline / send / shutdown / disconnect): '
                   'conn_contract (shutdown and disconnect never raise, readline raises nothing but ConnectionClosed and does so '
-                  'on a dead connection, only lines the peer sent are returned).  (5) life cycle across connections (threads as '
+                  'on a dead connection, only lines the peer sent are returned, None only when no complete line is waiting), '
+                  'lines_in_order (lines arriving whole or in segments with pauses longer than the inter-byte time-out: what readline '
+                  'hands out is exactly the sequence of lines sent, nothing lost, garbled or reordered).  (5) life cycle across connections (threads as '
                   'records: user disconnect()/request(), tx/rx workers behind their start gate, reconnect threads with cancel events '
                   'and registry; connect() with _lock, queue replacement, _shutdown.clear(), AsynConn accepted/refused, registration '
                   'of the workers; disconnect(shutdown) with its locals; one step per shared access, ~110 program points): '
@@ -1509,7 +1816,11 @@ META = {
                   'txthread.join(): proved for every continuation without a fault of the environment), '
                   'older_reconnect_connects_after_shutdown, no_worker_in_loop_fails.  Models (1), (3) and (5) are replayed '
                   'against every (attribute-level) run of the real client under a deterministic scheduler, model (4) against real '
-                  'AsynTcp objects on loopback sockets and against the scripted FakeConn; the Lean monitors judge every run.',
+                  'AsynTcp objects on loopback sockets and against the scripted FakeConn; the Lean monitors judge every run '
+                  '(per caller: own reply / released / spurious connection error judged at the state in which it returned / late / '
+                  'needless time-out: the reply to its own request was readable 1.5 s before its time-out ran out).  Scenarios '
+                  'include threads with several requests in a row or outstanding at once, and the handshake of connect() with a '
+                  'node that answers late, never, or with an error (connect() judged as the caller of its set-up requests).',
     'level_note': 'Trusted: Lean kernel + propext/Classical.choice/Quot.sound; queue.Queue / Event / RLock / join semantics are '
                   'those of vlib.sched (modelled, not verified); sections under the request lock are atomic in the model; the '
                   'conversion of the effect log to labels (harness) and the JSON glue.  Model (2) is tied to the source by '
@@ -1522,7 +1833,9 @@ META = {
     'trusted': [
         'vlib.sched primitives behave like threading/queue (one thread runs at a time, yield before every primitive)',
         'code executed under SecopClient._request_lock is atomic with respect to the other sections under that lock',
-        'the effect-log -> label conversion in harness/props/c11.py (checked by the replay: every label must be enabled)',
+        'the effect-log -> label conversion in harness/props/c11.py (checked by the replay: every label must be enabled); entries are '
+        'identified by object identity, the event an entry carries is looked up when an event is set',
+        'NeedlessTimeout: the ready times of the lines are those of the scripted peer (virtual time); margin 1.5 s',
         'life-cycle model: every shared access of connect()/disconnect()/the workers/the reconnect threads is a yield point or a '
         'logged effect of the attribute-level runs (attributes io, _txthread, _rxthread, _running, _connthread, _cancel_reconnect, the '
         'registry, queues, events, locks, joins); reads of self.txq / self.pending are not yield points (the queue object used is '
@@ -1539,6 +1852,10 @@ META = {
         'decode_msg / encode_msg_frame, the cache update of update-class messages, callbacks',
         'a connect() nested in connect() (the set-up request finds self.io gone): the life-cycle replay ends there',
         'timed layer: transcribed from the source, not replayed against runs',
+        'connect() before its workers run (identification, the except arm) on handshake cases: judged by the monitors and replayed on '
+        'the matching model only (the shutdown and life-cycle replays start after a completed connect())',
+        'AsynConn.readline with a time-out argument (the identification of connect(), frappy.io): only the no-time-out path of the '
+        'rx thread is replayed with segmented lines',
     ],
     'assumptions': ['request identifiers are not "." (the rx thread maps "." to None)',
                     'replies carry no request id: a line that matches syntactically and arrives while the request is filed is its '
